@@ -1,7 +1,9 @@
 #!/bin/sh
 # tools/refactor_check.sh [names...]: every archived behaviour-preserving refactoring against every check, in memory
+# (RC_OWN_ONLY=1: against the check of the property it was written for and C20 only - the quick regression)
 cd "$(dirname "$0")/.."
 mkdir -p ${TMPDIR:-/tmp}/rf
 for d in refactors/*/; do a=$(basename $d); for f in $d/refactor_*.diff; do k=$(basename $f .diff | sed 's/refactor_//'); 
   [ -n "$1" ] && ! echo " $@ " | grep -q " $a-$k " && continue
-  tools/patch_check.py $f > ${TMPDIR:-/tmp}/rf/$a-$k.log 2>&1; echo "rf-$a-$k: $(tail -1 ${TMPDIR:-/tmp}/rf/$a-$k.log | sed 's/.*result: //')"; done; done
+  own=${a%%-*}; if [ -n "$RC_OWN_ONLY" ]; then props="$own C20"; else props=""; fi
+  tools/patch_check.py $f $props > ${TMPDIR:-/tmp}/rf/$a-$k.log 2>&1; echo "rf-$a-$k: $(tail -1 ${TMPDIR:-/tmp}/rf/$a-$k.log | sed 's/.*result: //')"; done; done
